@@ -130,28 +130,42 @@ func C14(c *Ctx) {
 		}
 	}
 	nret := 0
+	// every list toMachines can answer with, looked up through the helpers it is split into (the functions that
+	// produce a list known to be duplicate-free stay leaves)
+	var scope []*ssa.Function
+	for _, f := range pkgClosure(toM) {
+		if f != allM && !dedupe[f] && prog.PkgOf(f) == "sio" {
+			scope = append(scope, f)
+		}
+	}
+	seenLeaf := map[ssa.Value]bool{}
 	for _, b := range toM.Blocks {
 		ret, ok := b.Instrs[len(b.Instrs)-1].(*ssa.Return)
 		if !ok || len(ret.Results) != 2 || ssau.IsNilConst(ret.Results[0]) {
 			continue
 		}
-		nret++
-		v := ret.Results[0]
-		why := "returns a list that is neither the live key set, a singleton, nor de-duplicated: " + v.String()
-		okR := false
-		switch x := v.(type) {
-		case *ssa.Call:
-			if sc := x.Common().StaticCallee(); sc == allM || dedupe[sc] {
-				okR = true
+		for _, v := range deepDefs(ret.Results[0], scope) {
+			if ssau.IsNilConst(v) || seenLeaf[v] {
+				continue
 			}
-		case *ssa.Slice:
-			if al, isAl := x.X.(*ssa.Alloc); isAl {
-				if arr, isArr := al.Type().Underlying().(*types.Pointer).Elem().Underlying().(*types.Array); isArr && arr.Len() == 1 {
+			seenLeaf[v] = true
+			nret++
+			why := "returns a list that is neither the live key set, a singleton, nor de-duplicated: " + v.String()
+			okR := false
+			switch x := v.(type) {
+			case *ssa.Call:
+				if sc := x.Common().StaticCallee(); sc == allM || dedupe[sc] {
 					okR = true
 				}
+			case *ssa.Slice:
+				if al, isAl := x.X.(*ssa.Alloc); isAl {
+					if arr, isArr := al.Type().Underlying().(*types.Pointer).Elem().Underlying().(*types.Array); isArr && arr.Len() == 1 {
+						okR = true
+					}
+				}
 			}
+			c.R.Check(okR, "C14-R1", fmt.Sprintf("toMachines: recipients #%d", nret), c.posv(v), "live key set, singleton, or de-duplicated", why)
 		}
-		c.R.Check(okR, "C14-R1", fmt.Sprintf("toMachines: recipients #%d", nret), c.pos(ret), "live key set, singleton, or de-duplicated", why)
 	}
 	if nret < 3 {
 		c.R.Break("C14-R1: toMachines has %d recipient-returning exits", nret)
